@@ -501,7 +501,27 @@ fn arg(args: &[String], name: &str) -> Option<String> {
     args.iter().position(|a| a == name).and_then(|i| args.get(i + 1).cloned())
 }
 
+static CURRENT_RUN: std::sync::Mutex<Option<(Instant, String)>> = std::sync::Mutex::new(None);
+
+fn start_watchdog() {
+    let limit = simkit::env_u64("VERIF_STUCK_S", 40);
+    std::thread::spawn(move || {
+        loop {
+            std::thread::sleep(std::time::Duration::from_millis(500));
+            let stuck = {
+                let g = CURRENT_RUN.lock().unwrap();
+                g.as_ref().and_then(|(t, j)| (t.elapsed().as_secs() >= limit).then(|| j.clone()))
+            };
+            if let Some(j) = stuck {
+                println!("{j}");
+                std::process::exit(0);
+            }
+        }
+    });
+}
+
 fn batch(args: &[String]) {
+    start_watchdog();
     let seed: u64 = arg(args, "--seed").and_then(|s| s.parse().ok()).unwrap_or(1);
     let worker: u64 = arg(args, "--worker").and_then(|s| s.parse().ok()).unwrap_or(0);
     let workers: u64 = arg(args, "--workers").and_then(|s| s.parse().ok()).unwrap_or(1);
@@ -520,8 +540,25 @@ fn batch(args: &[String]) {
     while runs < max_runs && start.elapsed().as_secs_f64() < budget {
         let run_seed = mix(base, i);
         let sc = generate(run_seed, thorough);
+        {
+            let rf = ReplayFile { property: "C11".into(), harness: "kv_sim".into(), seed: run_seed, scenario: sc.clone(), class: "stuck".into(),
+                message: "a backend call did not return (wall-clock backstop)".into(), known: None };
+            *CURRENT_RUN.lock().unwrap() = Some((Instant::now(), serde_json::json!({"type": "failure", "i": i, "replay": rf}).to_string()));
+        }
         let out = run(&sc);
+        *CURRENT_RUN.lock().unwrap() = None;
         runs += 1;
+        if runs % 8 == 0 {
+            // cumulative summary: the last one counts
+            writeln!(
+                stdout.lock(),
+                "{}",
+                serde_json::json!({"type": "summary", "prop": "C11", "worker": worker, "runs": runs, "failures": failures, "known": 0,
+                    "nontrivial_shapes": shapes.iter().collect::<Vec<_>>(), "traces": runs, "totals": totals, "probes": {},
+                    "faults": {}, "samples": samples, "wall_s": start.elapsed().as_secs_f64()})
+            )
+            .unwrap();
+        }
         if out.nontrivial {
             shapes.insert(simkit::fnv(&serde_json::to_vec(&sc).unwrap()));
         }
